@@ -58,7 +58,15 @@ impl Handler for Server {
     }
 
     fn on_message(&mut self, msg: Message) -> ws::Result<()> {
-        let message = msg.as_text().unwrap();
+        // Commands are text, a binary frame is not a command (and must not take the whole
+        // WebSocket event loop down with it)
+        let message = match msg.as_text() {
+            Ok(message) => message,
+            Err(e) => {
+                log::warn!("ws_ops::on_message::ignoring non text frame {}", e);
+                return Ok(());
+            }
+        };
         log::debug!(
             "[{}] Server got message '{}'. ",
             thread_id::get(),
